@@ -734,6 +734,8 @@ def api_case(cid, op, args, flags):
         c['alias'] = True
     if flags.get('iter'):
         c['iter'] = True
+    if flags.get('build'):
+        c['build'] = flags['build']
     return c
 
 
@@ -794,6 +796,17 @@ def run(tier, rep):
     progs, pinfo = [], {}
     for gi, (gtypes, glens, gextras) in enumerate(groups):
         raw = gen_cases(tier, r, gtypes, glens, gextras)
+        # the same list operand with another construction history: the backing array of a list that was built by append() or
+        # shortened by del has spare capacity, which an in-place operation may wrongly reuse
+        hist = []
+        for hi, (T, op, args, flags) in enumerate(raw):
+            if T != 'list' or op not in ('setslice', 'delslice', 'setindex', 'delindex', 'add', 'mul', 'getslice'):
+                continue
+            if tier == 'quick' and not (op == 'setslice' and (len(args[1].a) < 3 or args[1].a[2] in (None, 1))) and hi % 8:
+                continue
+            for b in (('append', 'shrunk') if tier != 'quick' or op == 'setslice' else (('append', 'shrunk')[(hi // 8) % 2],)):
+                hist.append((T, op, args, dict(flags, build=b)))
+        raw += hist
         cases, info = [], {}
         for (T, op, args, flags) in raw:
             tf = fam(T)
@@ -821,7 +834,7 @@ def run(tier, rep):
             g = res.get(cid)
             o = outcome(g)
             cls = case_class(op, args)
-            base = sigbase(T, op, cls, 'api')
+            base = sigbase(T, op, cls, 'api' if not flags.get('build') else 'api+built-by-' + flags['build'])
             witness = {'case': c, 'vrun_mode': 'api', 'type': T, 'op': op, 'operands': short(args), 'expected': short(exp if exp[0] != 'val' else ('val', show(exp[1]))),
                        'got': short(o if o[0] != 'val' else ('val', show(o[1])))}
             if o[0] in ('none', 'timeout'):
@@ -829,7 +842,7 @@ def run(tier, rep):
                 continue
             rep.evaluations += 1
             key = (T, op, cls)
-            nontriv.add(hash((T, op, repr(args))))
+            nontriv.add(hash((T, op, repr(args), flags.get('build'))))
             bad = judge_one(rep, base, witness, g, o, exp, op, args, flags)
             fc = feat_clean.setdefault(key, [0, 0])
             fc[1 if bad else 0] += 1
@@ -924,7 +937,7 @@ def run(tier, rep):
     rep.rule = ('exhaustive: sequence type in {list, tuple, str (ASCII), str (1-4 byte code points), bytes, range(n), range(5,5+3n,3), range(n-1,-1,-1)} x length 0..6 x '
                 '(start, stop, step) in lattice^3 (lattice = %d values: None, small ints around the lengths, +-(2^63-1), +-2^63, +-2^64) x {get slice; for lists also del slice and set slice with '
                 'RHS of length 0..3 and RHS = the list itself}; every index of the lattice as Int, forced BigInt, bool, float/str/None for get/set/del item; + (all length pairs, mixed types), '
-                '* and reflected * (negative, zero, bool, BigInt, non-int and - for empty operands - huge counts), len, in, ==, !=, <, <=, >, >=, iteration; range equality over %d^2 range pairs; '
+                '* and reflected * (negative, zero, bool, BigInt, non-int and - for empty operands - huge counts), len, in, ==, !=, <, <=, >, >=, iteration; range equality over %d^2 range pairs; list operands of the mutating operations, + , * and slicing also built by append() and by shortening a longer list (spare capacity); '
                 'seeded random tail with lengths 7..39; a stratified sample of the same operations compiled from source, one per program. '
                 'distinct non-trivial = distinct (type, operation, index/slice/other operands) tuples judged (api) plus distinct source programs judged' % (len(lattice(tier)), 24))
     rep.assumptions = ['CPython %s in-process and the first-principles model must agree before a case is judged' % '.'.join(map(str, __import__('sys').version_info[:3])),
